@@ -102,6 +102,7 @@ func main() {
 	judge(c, scs, kids, st)
 	c.AddStates(st.distinct, st.generated)
 	c.Set("tlc_trace_runs", st.runs)
+	c.Set("distinct_traces_decided_by_tlc", st.distinctTraces)
 	c.Set("rule", "exhaustive TLC check of Stream.tla (payload counts x interleavings of source, writer, keep-alive ticks, flush ticks, finishRequest, client disconnect); "+
 		"conformance: one case = one real streamed response (transport, keep-alive/flush interval on a seeded geometric sweep 1us..10ms, payload count 0..4, payload sizes 8B..70KB, seeded production delays, optional client cut after k bytes); "+
 		"a class = (scenario class, transport, payload count, interval decade, cut or not, token shape: pings seen / batch sizes)")
